@@ -9,12 +9,13 @@ from sa.selftest import _copy_sources
 
 rev = sys.argv[1]
 jobs = []
-if sys.argv[2] == '--round2':
+if sys.argv[2] in ('--round2', '--round3'):
+    rnd = int(sys.argv[2][-1])
     for n in range(1, 21):
         for k in (1, 2, 3):
-            p = '/tmp/seed/out2_c%02d/%d/patch.diff' % (n, k)
+            p = '/tmp/seed/out%d_c%02d/%d/patch.diff' % (rnd, n, k)
             if os.path.exists(p):
-                jobs.append(('C%02d' % n, p, 'C%02d-s%d' % (n, k + 3)))
+                jobs.append(('C%02d' % n, p, 'C%02d-s%d' % (n, k + 3 * (rnd - 1))))
 else:
     a = sys.argv[2:]
     jobs = [tuple(a[i:i + 3]) for i in range(0, len(a), 3)]
@@ -50,6 +51,6 @@ d = json.load(open(f))
 d.update(res)
 json.dump(d, open(f, 'w'), indent=1, sort_keys=True)
 c = sum(1 for v in res.values() if v.startswith('caught'))
-print('round-2 seeds: %d run with the checks of %s, %d caught, %d not' % (len(res), rev, c, len(res) - c))
+print('seeds: %d run with the checks of %s, %d caught, %d not' % (len(res), rev, c, len(res) - c))
 for k in sorted(res):
     print(k, res[k])
